@@ -93,6 +93,38 @@ Proof.
   apply orb_prop in Hall as [Hz|Hc]; [apply Z.eqb_eq in Hz; congruence|]. apply andb_prop in Hc as [Hc _]. exact Hc.
 Qed.
 
+(* every byte of NewLanguage(s) is one of a-z, 0-9, '-' (written out, without canon_byte), for every list of integers:
+   in particular a NUL byte - whose canonMap entry 0 is the "strip" marker - never survives *)
+Lemma new_language_bytes_lemma : forall (s : list Z) (b : Z), In b (new_language s) ->
+  97 <= b <= 122 \/ 48 <= b <= 57 \/ b = 45.
+Proof.
+  intros s b Hb. pose proof (new_language_canonical_lemma s) as H. unfold canonical in H.
+  rewrite forallb_forall in H. specialize (H b Hb). unfold canon_byte in H.
+  apply orb_prop in H as [H|H]; [apply orb_prop in H as [H|H]|].
+  - left. apply andb_prop in H as [A B]. apply Z.leb_le in A, B. lia.
+  - right. left. apply andb_prop in H as [A B]. apply Z.leb_le in A, B. lia.
+  - right. right. apply Z.eqb_eq in H. exact H.
+Qed.
+
+(* a canonical string is returned unchanged: canonMap fixes each of the 37 canonical bytes *)
+Lemma canon_bytes_fixed : forallb (fun b => implb (canon_byte b) (znth 0 canonMap b =? b)) (zrange 256) = true.
+Proof. vm_compute. reflexivity. Qed.
+
+Lemma new_language_fixes_canonical_lemma : forall l, canonical l = true -> new_language l = l.
+Proof.
+  unfold new_language. induction l as [|b t IH]; intro H; [reflexivity|].
+  unfold canonical in H. cbn [forallb] in H. apply andb_prop in H as [Hb Ht].
+  pose proof (canon_byte_ascii b Hb) as Hr.
+  assert (Hfix : znth 0 canonMap b = b).
+  { pose proof (forallb_zrange _ 256 canon_bytes_fixed b ltac:(lia)) as F. cbv beta in F. rewrite Hb in F.
+    cbn [implb] in F. apply Z.eqb_eq in F. exact F. }
+  cbn [new_language_from decode_rune].
+  replace (b <? 128) with true by (symmetry; apply Z.ltb_lt; lia).
+  unfold canon_emit. replace (b >=? 255) with false by (symmetry; rewrite Z.geb_leb; apply Z.leb_gt; lia).
+  rewrite Hfix. replace (negb (b =? 0)) with true by (symmetry; apply negb_true_iff; apply Z.eqb_neq; lia).
+  cbn [app Nat.pred]. f_equal. apply IH. exact Ht.
+Qed.
+
 (* ---- LangID ---- *)
 Definition zb_eq (x y : Z * bool) : bool := (fst x =? fst y) && Bool.eqb (snd x) (snd y).
 Definition langid_roundtrip_ok (id : Z) : bool :=
